@@ -56,6 +56,8 @@ class InterpMixin(object):
             return True
         if isinstance(v, (SExc, SMethod, SClosure, Opaque, SExt)):
             return True
+        if type(v).__name__ == "SSplit":
+            return True          # str.split never returns an empty list
         return bool(v)
 
     def isinstance_(self, v, cls):
